@@ -38,8 +38,11 @@ func genCandidate(r vlib.Rnd) *vlib.Project {
 		}
 		fallthrough
 	case 5:
-		if vlib.Chance(r, 1, 2) {
+		switch r.Intn(3) {
+		case 0:
 			return vlib.SingleFile(genAllOfFamily(r))
+		case 1:
+			return vlib.SingleFile(genPathFamily(r))
 		}
 		return vlib.SingleFile(genTagSoup(r))
 	case 6:
@@ -204,6 +207,87 @@ func genAllOfFamily(r vlib.Rnd) []byte {
 	fmt.Fprintf(&sb, "POST /a/{id}\n  Request @t%d\n  200 @t%d\n  404 [@t%d]\n", r.Intn(n), n-1, r.Intn(n))
 	if vlib.Chance(r, 1, 3) {
 		fmt.Fprintf(&sb, "  Path\n    { // {allOf: \"@t%d\"}\n      \"id\": 1\n    }\n", r.Intn(n))
+	}
+	return []byte(sb.String())
+}
+
+// genPathFamily: paths with 1-3 variables and Path directives (URL level, method level) describing any subset of them,
+// with property schemas that are fine, that contradict their own rules, or that refer to types of every notation.  Path
+// schemas are compiled late; whatever is accepted must serialise.
+func genPathFamily(r vlib.Rnd) []byte {
+	var sb strings.Builder
+	sb.WriteString("JSIGHT 0.3\n\nTYPE @int\n  1 // {min: 0}\n\nTYPE @re regex\n  /[a-z]+/\n\nTYPE @obj\n  {\"k\": 1}\n\nENUM @e\n  [\"a\", \"b\"]\n\n")
+	vals := []string{"1", "\"s\"", "1 // {min: 0}", "1 // {min: 5}", "\"abc\" // {maxLength: 2}", "\"a\" // {enum: @e}", "\"z\" // {enum: @e}", "@int", "@re", "@obj", "@nope", "@int | @re",
+		"12.5 // {type: \"decimal\", precision: 1}", "1 // {type: \"string\"}", "\"x\" // {regex: \"^[0-9]+$\"}", "null", "true", "1 // {optional: true}", "\"2020-01-01\" // {type: \"date\"}", "\"nodate\" // {type: \"date\"}"}
+	nv := 1 + r.Intn(3)
+	names := []string{"a", "b", "c"}[:nv]
+	path := ""
+	for _, n := range names {
+		if vlib.Chance(r, 1, 3) {
+			path += "/s" + n
+		}
+		path += "/{" + n + "}"
+	}
+	pathDir := func(ind string) {
+		var props []string
+		for _, n := range names {
+			if vlib.Chance(r, 1, 2) {
+				props = append(props, fmt.Sprintf("%s    \"%s\": %s", ind, n, vlib.Pick(r, vals)))
+			}
+		}
+		if len(props) == 0 {
+			return
+		}
+		sb.WriteString(ind + "Path\n" + ind + "  {\n")
+		for i, p := range props {
+			// the comma of a property line goes before its rule comment
+			if i < len(props)-1 {
+				if k := strings.Index(p, " //"); k >= 0 {
+					p = p[:k] + "," + p[k:]
+				} else {
+					p += ","
+				}
+			}
+			sb.WriteString(p + "\n")
+		}
+		sb.WriteString(ind + "  }\n")
+	}
+	// a third of the documents reach their URL / methods by pasting a root-level macro
+	viaMacro := vlib.Chance(r, 1, 3)
+	if viaMacro {
+		if vlib.Chance(r, 1, 2) {
+			sb.WriteString("PASTE @paths\n\nGET /other/{z}\n  200 any\n\nMACRO @paths\n(\n")
+		} else {
+			sb.WriteString("MACRO @paths\n(\n")
+		}
+	}
+	if vlib.Chance(r, 1, 2) {
+		sb.WriteString("URL " + path + "\n")
+		if vlib.Chance(r, 1, 2) {
+			pathDir("  ")
+		}
+		for _, m := range []string{"GET", "PUT"}[:1+r.Intn(2)] {
+			sb.WriteString("  " + m + "\n")
+			if vlib.Chance(r, 1, 2) {
+				pathDir("    ")
+			}
+			sb.WriteString("    200 any\n")
+		}
+	} else {
+		sb.WriteString("GET " + path + "\n")
+		pathDir("  ")
+		sb.WriteString("  200 any\n")
+		if vlib.Chance(r, 1, 2) {
+			sb.WriteString("POST " + path + "/more/{d}\n")
+			pathDir("  ")
+			sb.WriteString("  200 any\n")
+		}
+	}
+	if viaMacro {
+		sb.WriteString(")\n")
+		if !strings.Contains(sb.String(), "PASTE @paths") {
+			sb.WriteString("\nPASTE @paths\n")
+		}
 	}
 	return []byte(sb.String())
 }
